@@ -222,6 +222,14 @@ func c06Brief(bs [][]byte) []string {
 
 var c06ErrBroken = errors.New("read error")
 
+// the first 24 entries (a reader that is offered empty buffers answers 100 times)
+func c06Cap(l []int) []int {
+	if len(l) > 24 {
+		l = l[:24]
+	}
+	return append([]int{}, l...)
+}
+
 // []byte would be rendered as base64 in the JSON detail
 func c06Ints(b []byte) []int {
 	out := make([]int, len(b))
@@ -300,7 +308,7 @@ func TestVerif_C06_feed(t *testing.T) {
 					}
 					if cls != "" {
 						r.Violation(cls, map[string]any{"stream": fmt.Sprintf("%q", data), "bytes": c06Ints(data), "read0": delimNil,
-							"reads": append([]int{}, script.choices[:script.step]...), "offered": append([]int{}, script.offered...),
+							"reads": c06Cap(script.choices[:script.step]), "offered": c06Cap(script.offered),
 							"end": fmt.Sprint(endErr), "got": c06Brief(sink.got), "want": c06Brief(want), "panic": fmt.Sprint(perr),
 							"readerBufferSize": readerBufferSize, "readerSlabSize": readerSlabSize})
 					}
@@ -635,7 +643,10 @@ func (s *c06Snap) verify() (string, string) {
 	for ci, ch := range s.chunks {
 		for j := 0; j < ch.count; j++ {
 			it := &ch.items[j]
-			if i >= s.at || int(it.Index()) != i || it.text.ToString() != c06Rec(i) {
+			if i >= s.at {
+				return "snapshot-content", fmt.Sprintf("chunk %d item %d (ordinal %d): the snapshot was taken after %d pushes and must end at ordinal %d", ci, j, it.Index(), s.at, s.at-1)
+			}
+			if int(it.Index()) != i || it.text.ToString() != c06Rec(i) {
 				return "snapshot-content", fmt.Sprintf("chunk %d item %d: ordinal %d text %q, expected ordinal %d", ci, j, it.Index(), it.text.ToString(), i)
 			}
 			i++
